@@ -466,6 +466,37 @@ def lift_to_strings(L, name, cex):
     sa, sb = cex.get('a'), cex.get('b')
     ca = chr(sa) if sa is not None else None
     cb = chr(sb) if sb is not None else None
+    # directed search with the symbols (and position) of the solver model: random payloads completed to valid strings
+    import random
+    rnd = random.Random(0)
+    calc = getattr(mod, 'calc_check_digit', None) or getattr(mod, 'calc_check_digits', None)
+    pos = cex.get('pos', 0) or 0
+    if ca is not None and calc is not None:
+        for L in list(range(2, 14)) + [pos + 2, pos + 3, pos + 4, pos + 10, pos + 18]:
+            for _ in range(300):
+                payload = [rnd.choice(alpha) for _ in range(L)]
+                i = rnd.randrange(L)
+                if name == 'hT' and cb is not None and i + 1 < L:
+                    payload[i], payload[i + 1] = ca, cb
+                else:
+                    payload[i] = ca
+                p0 = ''.join(payload)
+                try:
+                    w = p0 + calc(p0, **kw)
+                    if not mod.is_valid(w, **kw):
+                        continue
+                except Exception:      # noqa: B902
+                    continue
+                if name == 'hT' and cb is not None and i + 1 < L:
+                    w2 = w[:i] + w[i + 1] + w[i] + w[i + 2:]
+                    if w2 != w and mod.is_valid(w2, **kw):
+                        return dict(input=w, altered=w2, reproduced=True, demonstrates='adjacent transposition accepted')
+                else:
+                    for c in ([cb] if cb else alpha):
+                        if c != w[i]:
+                            w2 = w[:i] + c + w[i + 1:]
+                            if mod.is_valid(w2, **kw):
+                                return dict(input=w, altered=w2, reproduced=True, demonstrates='single substitution accepted')
     # search valid strings of length <= 6 over the alphabet whose single substitution / transposition stays valid
     for n in range(1, 6):
         for tup in itertools.product(alpha[:12] if len(alpha) > 12 else alpha, repeat=n):
